@@ -6,6 +6,7 @@
    Proofs/EditFrame.v), a non-vacuity example, and Print Assumptions. *)
 From Coq Require Import ZArith List Bool.
 From FT Require Import Base.Dict Model.Edit Model.EditExec Proofs.EditInv Proofs.EditFrame.
+From FT Require Gen.History_gen Proofs.HistoryGen Props.C02.
 Import ListNotations.
 Open Scope Z_scope.
 
@@ -62,6 +63,19 @@ Definition ex_state : state :=
             (2, [(KTime, VZ 1); (KPos, VTok 2); (KTrack, VZ 2); (KLin, VZ 2)])]
            [] None ex_feats [(1, [1]); (2, [2])] [(1, [1]); (2, [2])] 2 2 3.
 
+(* ---- undo / redo: the history mechanism this property quantifies over (Tracks.undo / redo,
+        ActionHistory) is, in the model, the code translated on every run from the current
+        actions/action_history.py (Gen/History_gen.v); C02_timeline states what it guarantees ---- *)
+Theorem C20_history_is_generated : forall st a dA,
+  (let h := fst (FT.Gen.History_gen.add_new_action state action (FT.Proofs.HistoryGen.to_hist st) a st) in
+   undo_stack (hist_add st a) = FT.Gen.History_gen.undo_stack _ _ h /\ redo_stack (hist_add st a) = FT.Gen.History_gen.redo_stack _ _ h) /\
+  (let gr := FT.Gen.History_gen.undo state action FT.Proofs.HistoryGen.inv_total dA (FT.Proofs.HistoryGen.to_hist st) in
+   match undo st with
+   | Ok b s' => snd gr = b /\ undo_stack s' = FT.Gen.History_gen.undo_stack _ _ (fst gr) /\ redo_stack s' = FT.Gen.History_gen.redo_stack _ _ (fst gr)
+   | Err _ _ => True
+   end).
+Proof. exact FT.Props.C02.C02_edit_machine_uses_generated. Qed.
+
 Example C20_nonvacuous :
   let '(s1, (c1, _)) := step ex_state (OAddEdge 1 2 false) in
   let '(s2, (c2, _)) := step s1 (OAddEdge 2 1 false) in
@@ -76,3 +90,4 @@ Proof. vm_compute. repeat split. Qed.
 Print Assumptions C20_step.
 Print Assumptions C20_run.
 Print Assumptions C20_nested_silent.
+Print Assumptions C20_history_is_generated.
